@@ -432,7 +432,7 @@ int32_t psEccParsePrivKey(psPool_t *pool,
         return PS_FAILURE;
     }
     /* Initial curve check */
-    if ((*buf++ != ASN_OCTET_STRING) ||
+    if (buf >= end || (*buf++ != ASN_OCTET_STRING) ||
         getAsnLength(&buf, (uint16_t) (end - buf), &len) < 0 ||
         (uint16_t) (end - buf) < len ||
         len < (MIN_ECC_BITS / 8))
@@ -456,7 +456,7 @@ int32_t psEccParsePrivKey(psPool_t *pool,
     key->type = PS_PRIVKEY;
     buf += len;
 
-    if (*buf == (ASN_CONTEXT_SPECIFIC | ASN_CONSTRUCTED))
+    if (buf < end && *buf == (ASN_CONTEXT_SPECIFIC | ASN_CONSTRUCTED))
     {
 
         /* optional parameters are present */
@@ -507,7 +507,7 @@ int32_t psEccParsePrivKey(psPool_t *pool,
         goto L_FAIL;
     }
 
-    if (*buf == (ASN_CONTEXT_SPECIFIC | ASN_CONSTRUCTED | 1))
+    if (buf < end && *buf == (ASN_CONTEXT_SPECIFIC | ASN_CONSTRUCTED | 1))
     {
         /* optional public key is present */
         buf++;
